@@ -79,6 +79,7 @@ Definition flat_obs (o : obs) : list tok :=
   | OPBuiltin c => [TS "pbuiltin"; TN c]
   | OFail => [TS "fail"]
   | OClock t => [TS "clock"; TN t]
+  | OSvc iid => [TS "svc"; TS iid]
   end.
 
 Fixpoint ins_hist (e : nat * list nat) (l : list (nat * list nat)) :=
@@ -132,14 +133,22 @@ Fixpoint async_snaps (probe : bool) (m : machine) (s : st) (ops : list (nat * li
       | (_, true) => timeout_snap
       | (s1, false) =>
           match async_loop async_fuel m (fold_left (fun s' ev => async_send ev s') op (probe_op probe m op s1)) with
-          | (s', false) => flat_st s' :: async_snaps probe m s' r
+          | (s2, false) =>
+              match advance_idle idle_fuel Async m (s_now s2) s2 with
+              | (s', false) => flat_st s' :: async_snaps probe m s' r
+              | (_, true) => timeout_snap
+              end
           | (_, true) => timeout_snap
           end
       end
   end.
 Definition async_case (probe : bool) (m : machine) (cx : ctx) (ops : list (nat * list event)) : list (list tok) :=
   match async_loop async_fuel m (catch (async_start m) (st_init cx)) with
-  | (s0, false) => flat_st s0 :: async_snaps probe m s0 ops
+  | (s00, false) =>
+      match advance_idle idle_fuel Async m 0 s00 with
+      | (s0, false) => flat_st s0 :: async_snaps probe m s0 ops
+      | (_, true) => timeout_snap
+      end
   | (_, true) => timeout_snap
   end.
 
